@@ -7,7 +7,7 @@ META = {
                  "drivers, term equality of the time given to the filter and to the callbacks, taint analysis "
                  "exact-merge → tolerance-unique sink; path enumeration over the statement CFG of the time-merge loop; tolerance ordering (filter ≤ merge)",
     "design_ref": "DESIGN.md §5 C14, A.11",
-    "explanation": "ONCE: fill_results (emu-mps) has exactly the call sites init() and the base "
+    "explanation": "ONCE-filter: the two membership tests are asked about the time argument and the observable's own evaluation_times on the run's config; a hand-written membership test must range over all own times with the same tolerance (a bisection on one neighbour is not accepted). ONCE: fill_results (emu-mps) has exactly the call sites init() and the base "
                    "timestep_complete(), runs once per completed step after current_time is set and before the "
                    "index advances; _apply_observables (emu-sv) runs with 0 before the loop and k+1 after step k; "
                    "in both the time passed to each callback is the same term as the one tested by "
